@@ -30,7 +30,7 @@ import types
 
 import numpy as np
 
-from traits.api import HasTraits, TraitError, Undefined, Uninitialized
+from traits.api import HasTraits, Undefined, Uninitialized
 
 #: finite bounds used by the float-Range option grid; every bound b contributes
 #: b, nextafter(b, -inf), nextafter(b, +inf) to the lattice
